@@ -25,24 +25,36 @@ from .. import c10_model as M
 from .. import c10_topospace as TS
 
 LEVEL = 'model_checking'
-RULE = ('initial meshes {line(3), rectilinear 2x2, rectilinear 3x2 periodic in x (+ the degenerate 2x2 periodic one), unitsquare(2) triangle and '
-        'mixed, 2-patch multipatch, 1x1x2 box}; operation menu {refined, refine_spaces (products), refined_by(S) for every nonempty subset S if '
-        'the topology has <= 6 elements else a fixed family of 8 subsets, take (all subsets if <= 4 elements else the family), compress, slice, '
-        '[group], boundary, interfaces, take(A)|take(B), topo - take(A), * line(2), trim(levelset, maxrefine) and its complement for 8 linear '
-        'level sets per mesh (through interiors / vertices / along element edges / missing the domain, all cuts on multiples of 1/8 of an edge) x '
-        'maxrefine {0,1,2}}; all sequences of depth <= 2 with the complete menu, plus depth 3 with a reduced menu (quick: only below chains that '
-        'contain a trim or a refined_by and only the closing operations; thorough: reduced menu below every chain); states deduplicated on '
-        '(topology class signature, canonical cell set). non-trivial = distinct (class signature, cell set) with >= 1 element reached by >= 1 '
-        'operation and fully compared with the model')
-ASSUMPTIONS = ['the geometry of every initial mesh is affine per element (verified when the mesh is built); all level sets are linear with dyadic cuts, so '
-               'the bisection-based trimming is exact and a tolerance of 1e-9 separates rounding from defects',
+RULE = ('initial meshes {line(3), rectilinear 2x2, rectilinear 3x2 periodic in x with a volume group (+ the degenerate 2x2 periodic one, depth 2 only), '
+        'unitsquare(2) triangle and mixed, 2-patch multipatch, 1x1x2 box}; operation menu {refined, refine_spaces [X] / [Y] (products), refined_by(S) '
+        'for every nonempty subset S if the topology has <= 6 elements else a fixed family of 8 subsets, take (all subsets if <= 4 elements else the '
+        'family), compress (2 masks), slice (3 per axis, structured only), [group] (volume groups; side names and "trimmed" on boundaries), boundary, '
+        'interfaces, take(A)|take(B) (3 pairs), topo - take(A) (3 sets), * line(2), trim(a.x-c, maxrefine) and its complement topo - trim for 8 linear '
+        'level sets per mesh (through interiors / through vertices / along element edges / missing the domain, every cut on a multiple of 1/8 of an '
+        'edge) x maxrefine {0,1,2} (thorough: all 24 combinations, quick: 15)}; uniform refinement and * line only while the result has <= 256 elements. '
+        'All sequences of depth <= 2 over this menu; depth 3: quick = below every depth-2 chain that contains a trim or a refined_by, the closing '
+        'operations {refined, refined_by([0]), boundary, interfaces}; thorough = below every depth-2 chain a reduced menu (all refined_by subsets if <= 6 '
+        'elements, 3 takes, 1 slice per axis, groups, 1 union, 1 difference, * line, 6 trims + complements, boundary, interfaces). States are '
+        'deduplicated on (topology class signature, canonical cell set). non-trivial = distinct (class signature, cell set) with >= 1 element, reached '
+        'by >= 1 operation and fully compared with the model')
+ASSUMPTIONS = ['the geometry of every initial mesh is affine per element (verified when the mesh is built); all level sets are linear with dyadic cuts, so the '
+               'bisection-based trimming is exact and a tolerance of 1e-9 separates rounding from defects. Trimming an ALREADY trimmed topology bins the '
+               'second cut to 1/256 of the shortened edges: such transitions are checked relationally (trim + complement partition every element, stay '
+               'inside it, boundary closed w.r.t. the observed measure) and the chain ends there',
                'element geometry is observed from references + transform chains (nutils.transform.apply, TransformBasis._transform_basis) and the '
-               'per-element affine geometry; the native observations topo.integrate_elementwise(J) and boundary.integrate([nJ, x.nJ, J]) are '
-               'evaluated on every state of depth <= 1, on a deterministic 1/16 sample of the deeper states and on every candidate violation, and must '
-               'agree with the fast observation (disagreement is a harness error)',
-               'an operation that raises is a loud failure (counted in distinct_outcomes), not a violation of "never silently lose"',
-               'slicing a hierarchical topology slices its base grid; groups of refined/trimmed topologies contain the descendants of the group']
-BUDGET_S = {'quick': 1500, 'thorough': 5400}
+               'per-element affine geometry; the native observations topo.integrate_elementwise(J) and boundary.integrate([n J, x.n J, J]) are evaluated '
+               'on every state of depth <= 1, on a deterministic 1/16 sample of the deeper states and on every replayed witness, and must agree with the '
+               'fast observation (a disagreement is a harness error)',
+               'an operation that raises is a loud failure, not a violation of "never silently lose", provided the exception is one of the refusals of the '
+               'pinned tree listed in loud_category() (disconnected topology without connectivity, refinement beyond maxrefine, NotImplementedError, '
+               'rejected slices / empty groups, integration over empty references, and four loud failures of re-trimming / subtracting on simplex meshes '
+               'that are listed in the report); any other exception is reported as a violation',
+               'slicing a hierarchical topology slices its base grid; groups of refined/trimmed topologies contain the descendants of the group; an '
+               'element whose reference is EmptyLike is not part of the domain; refining an OwnChildReference element returns the same element once',
+               'on a periodic mesh that was subsampled by take/compress/union/difference the neighbour relation across the seam is unspecified: boundary '
+               'and interfaces are not compared there; for periodic states oint x.n is compared per non-periodic direction',
+               'two-space products are observed factor-wise (the element order i*len(topo2)+j is confirmed by the native element measures)']
+BUDGET_S = {'quick': 900, 'thorough': 5400}
 
 TOL = 1e-9
 
@@ -425,6 +437,7 @@ class Outcome:
         self.notes = []
         self.checked = []         # names of the oracles that were evaluated
         self.loud_msg = {}
+        self.loud_cat = {}
 
     def add_loud(self, where, e):
         kind = '{}:{}'.format(where, type(e).__name__)
@@ -435,7 +448,6 @@ class Outcome:
             self.violations.append(('unexpected-exception:' + kind, 'raised {}'.format(self.loud_msg[kind])))
         else:
             self.loud.append(kind)
-            self.loud_cat = getattr(self, 'loud_cat', {})
             self.loud_cat[kind] = cat
 
 
@@ -445,6 +457,8 @@ def loud_category(stage, e):
     msg = str(e)
     if isinstance(e, NotImplementedError):
         return 'not-implemented'
+    if isinstance(e, TypeError) and 'unsupported operand type(s) for' in msg and any(x in msg for x in ("'_Take'", "'_DisjointUnion'", "'_Mul'", "'_Empty'")):
+        return 'not-implemented'                # set operations between tensorial topology classes
     if isinstance(e, AttributeError) and "has no attribute 'connectivity'" in msg:
         return 'disconnected-topology'          # take/compress/union results are documented as disconnected topologies
     if isinstance(e, AttributeError) and "'MosaicReference' object has no attribute 'child_" in msg:
@@ -457,6 +471,17 @@ def loud_category(stage, e):
         return 'empty-reference'
     if stage in ('take', 'compress', 'refined_by') and isinstance(e, (IndexError, ValueError)) and 'index' in msg:
         return 'index-rejected'
+    # loud failures of the pinned tree on sequences one might expect to work (reported, not violations: nothing is lost silently)
+    if stage in ('boundary', 'interfaces', 'trimmed-group') and isinstance(e, ValueError) and msg == '':
+        return 'subset-boundary-lookup'         # SubsetTopology.boundary looks edges up in the base boundary by transform (re-trimmed / simplex bases)
+    if stage in ('boundary', 'interfaces', 'trimmed-group') and isinstance(e, TypeError) and "unsupported operand type(s) for -=: 'MosaicReference'" in msg:
+        return 'retrim-reference-arithmetic'
+    if stage in ('trim', 'trimc') and isinstance(e, AssertionError) and 'leftover unmatched edges' in msg:
+        return 'retrim-not-watertight'
+    if isinstance(e, AssertionError) and msg == 'duplicate nodes':
+        return 'simplex-duplicate-nodes'
+    if isinstance(e, ValueError) and msg == 'repeating an element is not allowed':
+        return 'duplicate-interface-lookup'     # two elements that share two faces (see the multiadj findings)
     return None
 
 
@@ -492,7 +517,7 @@ def check_domain_extras(st2, oc, native=False, confirm=False):
         with quiet():
             btopo = topo.boundary
             elems_b = OB.observe_any(btopo, ctx['gmaps'])
-    except OB.Unsupported as e:
+    except (OB.Unsupported, G.NonDyadic) as e:
         oc.notes.append('unobservable:boundary:{}'.format(e))
         elems_b = None
     except Exception as e:
@@ -525,7 +550,7 @@ def check_domain_extras(st2, oc, native=False, confirm=False):
         with quiet():
             itopo = topo.interfaces
             elems_i = OB.observe_any(itopo, ctx['gmaps'], with_opposites=True)
-    except OB.Unsupported as e:
+    except (OB.Unsupported, G.NonDyadic) as e:
         oc.notes.append('unobservable:interfaces:{}'.format(e))
         elems_i = None
     except Exception as e:
@@ -556,7 +581,7 @@ def trim_pair_oracle(st, op, oc, done=None):
                 with quiet():
                     topo2, geom2 = TS.apply_op(st.topo, st.geom, [name, a, c, m])
                     elems = OB.observe_any(topo2, ctx['gmaps'])
-        except OB.Unsupported as e:
+        except (OB.Unsupported, G.NonDyadic) as e:
             oc.notes.append('unobservable:{}:{}'.format(name, e))
             return
         except Exception as e:
@@ -597,7 +622,7 @@ def trim_pair_oracle(st, op, oc, done=None):
                     elems_g = OB.observe_any(g, ctx['gmaps'])
                 except KeyError:
                     elems_g = []
-        except OB.Unsupported as e:
+        except (OB.Unsupported, G.NonDyadic) as e:
             oc.notes.append('unobservable:trimmed-group:{}'.format(e))
             return
         except Exception as e:
@@ -636,7 +661,7 @@ def relational_trim(st, op, topo2, elems2, oc):
         with quiet():
             topo3, geom3 = TS.apply_op(st.topo, st.geom, [other, a, c, m])
             elems3 = OB.observe_any(topo3, ctx['gmaps'])
-    except OB.Unsupported as e:
+    except (OB.Unsupported, G.NonDyadic) as e:
         oc.notes.append('unobservable:{}:{}'.format(other, e))
         return
     except Exception as e:
@@ -674,7 +699,7 @@ def relational_trim(st, op, topo2, elems2, oc):
     try:
         with quiet():
             elems_b = OB.observe_any(topo2.boundary, ctx['gmaps'])
-    except OB.Unsupported as e:
+    except (OB.Unsupported, G.NonDyadic) as e:
         oc.notes.append('unobservable:boundary:{}'.format(e))
         return
     except Exception as e:
@@ -700,7 +725,7 @@ def transition(st, op, native=False, confirm=False):
             topo2, geom2 = TS.apply_op(st.topo, st.geom, op)
             n2 = len(topo2)
             elems2 = OB.observe_any(topo2, ctx['gmaps'], with_opposites=False)
-    except OB.Unsupported as e:
+    except (OB.Unsupported, G.NonDyadic) as e:
         oc.notes.append('unobservable:{}:{}'.format(name, e))
         return None, oc
     except Exception as e:
@@ -807,10 +832,6 @@ def vkey(mesh, key):
     return key
 
 
-def opname(op):
-    return op[0]
-
-
 def chain_has(ops, names):
     return any(o[0] in names for o in ops)
 
@@ -836,29 +857,32 @@ def native_sample(ops):
     return int(core.h8(json.dumps(ops)), 16) % 16 == 0
 
 
-def explore(st, tier, res, seen):
+def explore(st, tier, res, seen, chunk=None):
+    'depth-first over operation sequences below state st; chunk=(i, n) deals the operations of THIS state round robin'
     level = level_for(tier, st.mesh, st.ops)
     if level is None:
         return
-    for op in TS.menu(st.info(), level):
+    for iop, op in enumerate(TS.menu(st.info(), level)):
+        if chunk is not None and iop % chunk[1] != chunk[0]:
+            continue
         res.count('transitions')
         res.count('evaluations')
         ops2 = st.ops + [op]
         st2, oc = transition(st, op, native=native_sample(ops2))
         res.count('traces_validated_against_impl')
-        chain = '/'.join(o[0] for o in ops2)
         for c in oc.checked:
             res.count('checked_' + c)
         for l in oc.loud:
             res.count('loud_failures')
             res.distinct('distinct_outcomes', 'loud:' + l)
             res.distinct('loud_kinds', l)
-            LOUD.setdefault(l, {'mesh': st.mesh, 'ops': ops2, 'msg': oc.loud_msg.get(l)})
+            res.distinct('loud_categories', oc.loud_cat.get(l, '?'))
+            LOUD.setdefault(l, {'mesh': st.mesh, 'ops': ops2, 'msg': oc.loud_msg.get(l), 'category': oc.loud_cat.get(l)})
         for n in oc.notes:
             NOTES[n] = NOTES.get(n, 0) + 1
             NOTE_EX.setdefault(n, {'mesh': st.mesh, 'ops': ops2})
             res.count('not_compared')
-            res.distinct('distinct_outcomes', 'note:' + n.split(':')[0] + ':' + n.split(':')[1])
+            res.distinct('distinct_outcomes', 'note:' + ':'.join(n.split(':')[:2]))
         for key, text in oc.violations:
             key = vkey(st.mesh, key)
             res.violation(key, '{} after {} on {}: {}'.format(key, json.dumps(ops2), st.mesh, text), {'mesh': st.mesh, 'ops': ops2})
@@ -867,7 +891,7 @@ def explore(st, tier, res, seen):
         if st2 is None:
             continue
         res.distinct('distinct_outcomes', 'ok:' + sig(st2.topo))
-        canon = (sig(st2.topo), st2.kind, st2.ms.canonical())
+        canon = (sig(st2.topo), st2.kind, st2.has_trim, st2.ms.periodic_ok, st2.ms.canonical())
         if st2.elems:
             res.distinct('distinct_nontrivial', repr(canon))
         res.maximum('max_elements', len(st2.elems))
@@ -876,7 +900,7 @@ def explore(st, tier, res, seen):
             continue
         seen.add(canon)
         res.count('states')
-        if len(res.samples) < 3 and len(ops2) >= 2:
+        if len(res.samples) < 2 and len(ops2) >= 2 and st2.has_trim:
             res.sample({'history': {'mesh': st.mesh, 'ops': ops2}, 'class': sig(st2.topo), 'elements': len(st2.elems), 'measure': round(st2.ms.total(), 9)})
         explore(st2, tier, res, seen)
 
@@ -885,13 +909,14 @@ LOUD = {}
 NOTES = {}
 NOTE_EX = {}
 
-NCHUNK = {'quick': 10, 'thorough': 24}
+# number of shards per mesh (first operations are dealt round robin), roughly proportional to the cost of the mesh
+NCHUNK = {'line3': 3, 'mp2': 4, 'box112': 8, 'rect22': 12, 'tri2': 10, 'mix2': 24, 'per32': 24, 'per22': 1}
 
 
 def shards(tier, seed):
     out = []
-    for mesh in TS.MESHES:
-        n = 1 if mesh == 'per22' else NCHUNK[tier]
+    for mesh in ['line3', 'mp2', 'per22', 'box112', 'rect22', 'tri2', 'mix2', 'per32']:
+        n = NCHUNK[mesh] * (1 if tier == 'quick' or mesh == 'per22' else 2)
         for i in range(n):
             out.append({'mesh': mesh, 'chunk': i, 'of': n})
     return out
@@ -900,57 +925,23 @@ def shards(tier, seed):
 def run_shard(spec, tier, seed):
     res = core.ShardResult()
     LOUD.clear()
+    NOTES.clear()
+    NOTE_EX.clear()
     st = initial_state(spec['mesh'])
     if spec['chunk'] == 0:
+        # the initial state itself is compared like any other state
         res.count('states')
-        # the initial state itself: compared like any other state
         oc = Outcome()
         check_domain_extras(st, oc, native=True)
+        for c in oc.checked:
+            res.count('checked_' + c)
         for key, text in oc.violations:
             key = vkey(st.mesh, key)
             res.violation(key, '{} on the initial mesh {}: {}'.format(key, st.mesh, text), {'mesh': st.mesh, 'ops': []})
-    level = level_for(tier, st.mesh, [])
-    first = TS.menu(st.info(), level)
-    mine = [op for i, op in enumerate(first) if i % spec['of'] == spec['chunk']]
-    seen = set()
-    for op in mine:
-        res.count('transitions')
-        res.count('evaluations')
-        st2, oc = transition(st, op, native=True)
-        res.count('traces_validated_against_impl')
-        for c in oc.checked:
-            res.count('checked_' + c)
-        for l in oc.loud:
-            res.count('loud_failures')
-            res.distinct('distinct_outcomes', 'loud:' + l)
-            res.distinct('loud_kinds', l)
-            LOUD.setdefault(l, {'mesh': st.mesh, 'ops': [op], 'msg': oc.loud_msg.get(l)})
-        for n in oc.notes:
-            NOTES[n] = NOTES.get(n, 0) + 1
-            res.count('not_compared')
-            res.distinct('distinct_outcomes', 'note:' + n.split(':')[0] + ':' + n.split(':')[1])
-        for key, text in oc.violations:
-            key = vkey(st.mesh, key)
-            res.violation(key, '{} after {} on {}: {}'.format(key, json.dumps([op]), st.mesh, text), {'mesh': st.mesh, 'ops': [op]})
-        if st2 is None:
-            continue
-        res.distinct('distinct_outcomes', 'ok:' + sig(st2.topo))
-        canon = (sig(st2.topo), st2.kind, st2.ms.canonical())
-        if st2.elems:
-            res.distinct('distinct_nontrivial', repr(canon))
-        res.maximum('max_elements', len(st2.elems))
-        if canon in seen:
-            continue
-        seen.add(canon)
-        res.count('states')
-        if len(res.samples) < 1:
-            res.sample({'history': {'mesh': st.mesh, 'ops': [op]}, 'class': sig(st2.topo), 'elements': len(st2.elems), 'measure': round(st2.ms.total(), 9)})
-        explore(st2, tier, res, seen)
-    for l, h in sorted(LOUD.items())[:40]:
-        res.distinct('loud_examples', l)
+    explore(st, tier, res, set(), chunk=(spec['chunk'], spec['of']))
     if LOUD and len(res.samples) < core.ShardResult.MAXSAMPLES:
         l, h = sorted(LOUD.items())[0]
-        res.sample({'loud_failure': l, 'history': h})
+        res.sample({'loud_failure': l, 'history': {'mesh': h['mesh'], 'ops': h['ops']}, 'message': h['msg'], 'category': h['category']})
     return res
 
 
